@@ -38,7 +38,7 @@ def replay_file(payload):
         print("replay C07: no concrete input (structural obligation on the lowered C++)")
         return True
     shp = inp["shape"]
-    sc = scenarios.Scenario(shp[0], shp[1], shp[2], shp[3], seed=inp["seed"])
+    sc = scenarios.Scenario(shp[0], shp[1], shp[2], shp[3], seed=inp["seed"], share_reading=inp.get("share_reading", False))
     problems, det = cxxcompare.compare(sc, k_edit=inp.get("k_edit"), cse=inp.get("cse", True), seed=inp.get("point_seed", 0), container=inp.get("container", "set"))
     print("replay C07:", problems[:4] or "python and compiled C++ agree")
     return not problems
